@@ -156,6 +156,23 @@ static void mon_c03(World& w) {
             if (flagged) break;
         }
         if (flagged) continue;
+        // "... it only (re)transmits PUBREL until PUBCOMP arrives": an exchange that reached PUBREL and has not seen its PUBCOMP goes on
+        // with PUBREL on every later connection of the resumed session on which the client sends anything at all - whether or not the
+        // application has meanwhile cancelled the operation
+        { uint16_t xp = txs[0].pid; int last_rel_conn = -1; bool after_pub = false; bool over = false;
+          for (auto& wl : w.net->wlog) { if (over) break; for (auto& pk : packets_in(wl.data)) { auto r2 = ref::decode(pk.second); if (r2.st != ref::D_OK) continue;
+              if (r2.pkt.type == ref::PUBLISH && r2.pkt.payload == o.payload) after_pub = true;
+              else if (r2.pkt.type == ref::PUBLISH && after_pub && r2.pkt.has_pid && r2.pkt.pid == xp && last_rel_conn >= 0) over = true;      // the id moved on to another message: judged below through the connections in between
+              else if (r2.pkt.type == ref::PUBREL && after_pub && r2.pkt.pid == xp && wl.conn >= 0) last_rel_conn = std::max(last_rel_conn, wl.conn); } }
+          if (last_rel_conn >= 0) {
+              bool comp_read = false; for (auto& e : w.broker->wire) if (!e.c2b && !e.malformed && e.pkt.type == ref::PUBCOMP && e.pkt.pid == xp && e.conn >= last_rel_conn && e.conn < int(w.net->conns.size())) { for (auto& m : w.net->conns[e.conn].read_marks) if (m.first >= e.b2c_end) comp_read = true; }
+              if (!comp_read) for (int c2 = last_rel_conn + 1; c2 < int(w.net->conns.size()) && c2 < int(w.broker->cs.size()); ++c2) {
+                  bool resumed = false; for (auto& e : w.broker->wire) if (e.conn == c2 && !e.c2b && !e.malformed && e.pkt.type == ref::CONNACK && e.pkt.rc == 0 && e.pkt.session_present) resumed = true;
+                  if (!resumed) break;       // session lost (or handshake never finished): nothing to continue
+                  bool sent_other = false, rel = false; for (auto& wl : w.net->wlog) if (wl.conn == c2) for (auto& pk : packets_in(wl.data)) { auto r2 = ref::decode(pk.second); if (r2.st != ref::D_OK) continue; if (r2.pkt.type == ref::PUBREL && r2.pkt.pid == xp) rel = true; else if (r2.pkt.type != ref::CONNECT && r2.pkt.type != ref::AUTH && r2.pkt.type != ref::PINGREQ && r2.pkt.type != ref::DISCONNECT) sent_other = true; }
+                  if (rel) break;
+                  if (sent_other) { w.vio("C03:pubrel-not-retransmitted:" + sn, "QoS 2 PUBLISH (tag " + std::to_string(o.tag) + ") had reached PUBREL without a PUBCOMP, yet on the resumed connection " + std::to_string(c2) + " the client sent other packets and no PUBREL for id " + std::to_string(xp)); flagged = true; break; } } } }
+        if (flagged) continue;
         // once a PUBREL for the message's id has been handed to the transport, no PUBLISH of the message again
         uint16_t pid = txs[0].pid; bool pubrel_seen = false; size_t idx = 0;
         for (auto& wl : w.net->wlog) { for (auto& pk : packets_in(wl.data)) { auto r = ref::decode(pk.second); if (r.st != ref::D_OK) continue; idx++;
@@ -708,6 +725,8 @@ std::vector<Scenario> scenarios_for(const std::string& prop, int tier) {
         uint32_t fam = RECOVERABLE | SCHED | (tier ? F_BYTE : 0);
         { auto s = base("X1-qos2", {RUN(), PUB(2, 1)}, fam, tier ? 4 : 2, M_C03); if (tier) s.fam &= ~F_BYTE; v.push_back(s); if (tier) { s.name = "X1-qos2-bytecuts"; s.fam |= F_BYTE; s.D = 3; v.push_back(s); } }
         { auto s = base("X2-qos2-between-qos1", {RUN(), PUB(1, 1), PUB(2, 2), PUB(1, 3)}, fam & ~(F_WRSHORT | F_CHUNK), tier ? 2 : 2, M_C03); v.push_back(s); }
+        // per-operation cancellation of the QoS 2 publish at any point does not end the protocol exchange once PUBREC was consumed
+        { auto s = base("X4-qos2-cancelled", {RUN(), slot(PUB(2, 1)), PUB(2, 2)}, (fam & ~(F_WRSHORT | F_CHUNK)) | F_INJECT, tier ? 3 : 2, M_C03); s.inject = SIGNAL(1, 1); s.expect_all_success = false; v.push_back(s); }
         { auto s = base("X3-qos2-tcp", {RUN(), PUB(2, 1), PUB(2, 2)}, fam & ~(F_WRSHORT | F_CHUNK), tier ? 2 : 1, M_C03); s.flavour = 1; v.push_back(s); }
     }
     else if (prop == "C06") {
